@@ -28,7 +28,7 @@ let run (id : string) (hdr : string list) (lines : string list list) (out : stri
     let num k d = n_of_int (scale * int_of_string (kv_of hdr k d)) in
     let cfg = { c_idle = num "idle" "150"; c_ttl_ro = num "ttlro" "650"; c_ttl_rw = num "ttlrw" "450";
                 c_btimeout = (match kv_of hdr "bt" "" with
-                              | "" -> TxFacts.registry_begin_timeout_ms   (* the literal in the source *)
+                              | "" -> RegFacts.registry_begin_timeout_ms   (* the literal in the source *)
                               | x -> n_of_int (int_of_string x));
                 c_svc = (kv_of hdr "svc" "0" = "1"); c_peer = (kv_of hdr "peer" "1" = "1") } in
     let s = ref init in
